@@ -23,6 +23,9 @@
 //	sequence     2-3 writers die one after the other at drawn crash points in one directory
 //	             (optionally starting from a foreign-version entry): invariant after each death,
 //	             then recovery
+//	paused       a writer process is stopped (SIGSTOP) while its temp file exists and the final
+//	             name does not; other users open the directory (and compile); the writer
+//	             continues: everybody succeeds, final entry = reference
 //	concurrent   G goroutines (own cache handles and runtimes) and P processes compile into one
 //	             directory at once: no error, uncached traces, final file = reference
 //
@@ -921,6 +924,8 @@ func (mc *modCtx) runFault(f fault) (msg string, labels []string, infra error) {
 		return mc.faultConcurrent(f)
 	case "sequence":
 		return mc.faultSequence(f)
+	case "paused":
+		return mc.faultPaused()
 	case "entry":
 		class := mc.classify(f.Entry)
 		if class == "" {
@@ -1058,6 +1063,119 @@ func (mc *modCtx) faultCrash(f fault) (msg string, labels []string, infra error)
 	}
 	m, infra = mc.useDir("fresh runtime using the directory "+after, dir)
 	return m, labels, infra
+}
+
+// faultPaused: a writer process is stopped (SIGSTOP) while it is between CreateTemp and Rename
+// inside fileCache.Add - observed from outside: its temp file exists and the final name does
+// not - then other users open the same directory (a cache object that compiles the module, and
+// one that is only constructed), then the writer continues. The writer's CompileModule must
+// succeed with the uncached trace, the other user must work, the final name must hold the
+// reference entry. The stop is attempted by polling the directory; when the window is missed
+// (the writer had already renamed) the attempt is repeated with a fresh directory, and after 8
+// misses the case gives no verdict (label paused:window-never-hit).
+func (mc *modCtx) faultPaused() (msg string, labels []string, infra error) {
+	for attempt := 0; attempt < 8; attempt++ {
+		dir := mc.newDir("pause")
+		sub := filepath.Join(dir, mc.refSub)
+		if err := os.MkdirAll(sub, 0o700); err != nil {
+			return "", labels, err
+		}
+		mc.seq++
+		base := filepath.Join(mc.work, fmt.Sprintf("child%d", mc.seq))
+		c, err := startChild(&childReq{Spec: mc.spec, Dir: dir, Out: base + ".out", Barrier: true}, base+".req", childTimeout)
+		if err != nil {
+			return "", labels, err
+		}
+		<-c.ready
+		c.stdin.Close() // release the writer
+		paused := false
+	poll:
+		for {
+			select {
+			case <-c.done:
+				break poll
+			default:
+			}
+			temp, final := scanSub(sub, mc.refName)
+			switch {
+			case final:
+				break poll
+			case temp:
+				c.cmd.Process.Signal(syscall.SIGSTOP)
+				// the signal is asynchronous: wait until the process is really stopped
+				stopped := false
+				for i := 0; i < 20000 && !stopped; i++ {
+					if b, err := os.ReadFile(fmt.Sprintf("/proc/%d/stat", c.cmd.Process.Pid)); err == nil {
+						if j := bytes.LastIndexByte(b, ')'); j >= 0 && j+2 < len(b) && (b[j+2] == 'T' || b[j+2] == 't') {
+							stopped = true
+						}
+					} else {
+						break
+					}
+				}
+				temp, final = scanSub(sub, mc.refName)
+				if stopped && temp && !final {
+					paused = true
+				} else {
+					c.cmd.Process.Signal(syscall.SIGCONT)
+				}
+				break poll
+			}
+		}
+		if !paused {
+			r := c.wait()
+			os.RemoveAll(dir)
+			if m, infra := mc.checkChildOK("writer process (not paused)", r); m != "" || infra != nil {
+				return m, labels, infra
+			}
+			labels = append(labels, "paused:window-missed")
+			continue
+		}
+		labels = append(labels, "paused:writer-stopped-with-temp-file-present")
+		what := "while a writer process is stopped between CreateTemp and Rename (its temp file exists, no final entry)"
+		m1, infra1 := mc.useDir("another user opening the directory and compiling the module "+what, dir)
+		var openErr error
+		if cc, err := wazero.NewCompilationCacheWithDir(dir); err != nil {
+			openErr = err
+		} else {
+			cc.Close(context.Background())
+		}
+		c.cmd.Process.Signal(syscall.SIGCONT)
+		r := c.wait()
+		defer os.RemoveAll(dir)
+		if m1 != "" || infra1 != nil {
+			return m1, labels, infra1
+		}
+		if openErr != nil {
+			return "", labels, openErr
+		}
+		if m, infra := mc.checkChildOK("writer process that continued after other users opened the directory "+what, r); m != "" || infra != nil {
+			return m, labels, infra
+		}
+		if b, ok := readFinal(mc.finalPath(dir)); !ok || !bytes.Equal(b, mc.ref) {
+			return "after the paused writer finished the final name does not hold the reference entry", labels, nil
+		}
+		return "", labels, nil
+	}
+	return "", append(labels, "paused:window-never-hit"), nil
+}
+
+// scanSub reports whether the version directory holds a temp file of the key / the final name.
+func scanSub(sub, key string) (temp, final bool) {
+	f, err := os.Open(sub)
+	if err != nil {
+		return
+	}
+	names, _ := f.Readdirnames(-1)
+	f.Close()
+	for _, n := range names {
+		if n == key {
+			final = true
+		} else if isTempOf(n, key) {
+			temp = true
+		}
+	}
+	return
 }
 
 // checkAfterKill verifies the directory invariant after a writer died: the final name holds
@@ -1677,6 +1795,7 @@ func runSpec(t *rapid.T, spec *modSpec) {
 		do(sf)
 		cov.Sequences = append(cov.Sequences, sf.param())
 	}
+	do(fault{Kind: "paused"})
 	g, p := rapid.IntRange(2, 8).Draw(t, "goroutines"), rapid.IntRange(2, 4).Draw(t, "processes")
 	do(fault{Kind: "concurrent", G: g, P: p})
 	cov.Concurrent = fmt.Sprintf("%d goroutines + %d processes", g, p)
